@@ -232,7 +232,7 @@ def make_ext_modules(I):
                         ('astropy.utils.exceptions', 'astropy_misc.py'), ('astropy.utils', 'astropy_utils.py'),
                         ('astropy.utils.data', 'astropy_data.py'),
                         ('astropy.io.fits.util', 'fits_util.py'), ('astropy.io.fits', 'fits_model.py'), ('astropy.io', 'astropy_io.py'),
-                        ('astropy.table', 'table_model.py'), ('astropy.wcs.utils', 'wcs_utils.py'), ('astropy.wcs', 'wcs_model.py'), ('astropy', 'astropy_top.py'),
+                        ('astropy.table', 'table_model.py'), ('functools', 'functools_model.py'), ('astropy.wcs.utils', 'wcs_utils.py'), ('astropy.wcs', 'wcs_model.py'), ('astropy', 'astropy_top.py'),
                         ('matplotlib.patches', 'mpl_patches.py'), ('matplotlib.lines', 'mpl_lines.py'),
                         ('matplotlib.text', 'mpl_text.py'), ('matplotlib.path', 'mpl_path.py'),
                         ('matplotlib', 'mpl_top.py'), ('matplotlib.pyplot', 'mpl_pyplot.py'),
